@@ -8,12 +8,12 @@ package cache
 //	VERIF_OPS    request lines   (written by gen/win/enum, read by replay)
 //	VERIF_IMPL   implementation answers, one per request line
 //	VERIF_MON    monitor lines "MON <line-no> <monitor> <detail>"
-//	VERIF_SEED VERIF_N VERIF_DEPTH VERIF_MINCOUNT
+//	VERIF_SEED VERIF_N VERIF_DEPTH VERIF_MINCOUNT VERIF_TIMER VERIF_ALPHABET
 //
 // Requests (k key, v value, now logical time, t thread, r 0|1, "! f…" keys whose cleanup fails in this request):
 //
 //	NEW age count fn | SET k v now ! f… | GET k now | DEL k ! f… | DELALL ! f… | AGE now ! f… | COUNT now ! f…
-//	LIST | EMPTY | MINCOUNT lo hi | DBEGIN t k | DEND t r | ABEGIN t k ! f… | AEND t r
+//	LIST | EMPTY | MINCOUNT lo hi | TIMER ms | DBEGIN t k | DEND t r | ABEGIN t k ! f… | AEND t r
 //
 // Time.  The cache reads time.Now() itself.  Before every request the harness overwrites the `used` stamp of
 // every entry with a real time that encodes the entry's logical last use (one tick = one hour, half an hour
@@ -308,6 +308,54 @@ func (h *vH) monitors(op string, now int, before, after map[int]vEnt, calls []vC
 	}
 }
 
+// validation with the real timer and the real clock: a separate cache with a short Age; the cleanup records
+// when it runs.  Only the robust direction is judged: the callback of an entry must not run before
+// (a time taken before its last use) + Age.  Lateness is never judged.
+func (h *vH) realTimer(age time.Duration) {
+	var mu sync.Mutex
+	at := map[int]time.Time{}
+	c := New[int, int](Opts[int, int]{Age: age, PruneFn: func(k, v int) error {
+		mu.Lock()
+		at[k] = time.Now()
+		mu.Unlock()
+		return nil
+	}})
+	last := map[int]time.Time{}
+	last[1] = time.Now()
+	c.Set(1, 1)
+	time.Sleep(age / 2)
+	last[2] = time.Now()
+	c.Set(2, 2)
+	time.Sleep(age / 4)
+	t := time.Now()
+	if _, err := c.Get(1); err == nil {
+		last[1] = t
+	}
+	for i := 0; i < 400; i++ {
+		mu.Lock()
+		n := len(at)
+		mu.Unlock()
+		if n == 2 {
+			break
+		}
+		time.Sleep(age / 4)
+	}
+	mu.Lock()
+	defer mu.Unlock()
+	for k, used := range last {
+		if cb, ok := at[k]; !ok {
+			h.flag("timer-not-fired", fmt.Sprintf("entry %d still there after %v (age %v)", k, time.Since(used), age))
+		} else if cb.Sub(used) < age {
+			h.flag("expired-early", fmt.Sprintf("real timer: entry %d cleaned up %v after its last use, age %v", k, cb.Sub(used), age))
+		}
+	}
+	c.mu.Lock()
+	if c.timer != nil {
+		c.timer.Stop()
+	}
+	c.mu.Unlock()
+}
+
 func vAtoi(s string) int { n, _ := strconv.Atoi(s); return n }
 
 func (h *vH) apply(line string) string {
@@ -329,7 +377,7 @@ func (h *vH) apply(line string) string {
 	now := h.clock
 	timeArg := map[string]int{"SET": 3, "GET": 2, "AGE": 1, "COUNT": 1}
 	arity := map[string]int{"NEW": 4, "SET": 4, "GET": 3, "DEL": 2, "DELALL": 1, "AGE": 2, "COUNT": 2, "LIST": 1, "EMPTY": 1,
-		"MINCOUNT": 3, "DBEGIN": 3, "DEND": 3, "ABEGIN": 3, "AEND": 3}
+		"MINCOUNT": 3, "TIMER": 2, "DBEGIN": 3, "DEND": 3, "ABEGIN": 3, "AEND": 3}
 	if arity[t[0]] != len(t) {
 		return "bad-op"
 	}
@@ -367,6 +415,9 @@ func (h *vH) apply(line string) string {
 			return "empty=1"
 		}
 		return "empty=0"
+	case "TIMER":
+		h.realTimer(time.Duration(vAtoi(t[1])) * time.Millisecond)
+		return "ok"
 	case "MINCOUNT":
 		lo, hi := vAtoi(t[1]), vAtoi(t[2])
 		sum := 0
@@ -504,6 +555,7 @@ func (h *vH) apply(line string) string {
 type vGen struct {
 	r    *rand.Rand
 	emit func(string)
+	busy func(t int) bool // is thread t inside a callback? (read from the interpreter, only to pick useful lines)
 	now  int
 	val  int
 }
@@ -624,20 +676,24 @@ func (g *vGen) windows(n int) {
 			nk = 4
 		}
 		steps := 4 + r.Intn(20)
-		open := map[int]bool{}
+		for k := 0; k < nk; k++ {
+			if r.Intn(3) != 0 {
+				g.emit(fmt.Sprintf("SET %d %d %d !", k, g.fresh(), g.tick()))
+			}
+		}
 		for j := 0; j < steps; j++ {
+			t := 1 + r.Intn(3)
 			switch x := r.Intn(10); {
-			case x < 3:
-				g.emit(fmt.Sprintf("DBEGIN %d %d", 1+r.Intn(3), r.Intn(nk)))
-			case x < 6:
-				g.emit(fmt.Sprintf("DEND %d %d", 1+r.Intn(3), r.Intn(3)/2))
+			case x < 4 && g.busy(t) != (r.Intn(10) == 0): // mostly lines that do something
+				g.emit(fmt.Sprintf("DEND %d %d", t, r.Intn(3)/2))
+			case x < 4:
+				g.emit(fmt.Sprintf("DBEGIN %d %d", t, r.Intn(nk)))
 			default:
 				g.seqOp(nk)
 			}
 		}
-		_ = open
 		for t := 1; t <= 3; t++ {
-			if r.Intn(3) != 0 {
+			if g.busy(t) && r.Intn(4) != 0 {
 				g.emit(fmt.Sprintf("DEND %d %d", t, r.Intn(2)))
 			}
 		}
@@ -745,17 +801,24 @@ func TestVerifCache(t *testing.T) {
 	ops := bufio.NewWriterSize(opsF, 1<<20)
 	defer func() { ops.Flush(); opsF.Close() }()
 	g := &vGen{r: rand.New(rand.NewSource(int64(seed)))}
+	g.busy = func(t int) bool { return h.threads[t] != nil }
 	g.emit = func(line string) {
 		fmt.Fprintln(ops, line)
 		fmt.Fprintln(impl, h.apply(line))
 	}
 	switch mode {
 	case "gen":
+		g.sequential(n)
 		if mc := os.Getenv("VERIF_MINCOUNT"); mc != "" {
 			g.emit("NEW 0 0 0")
 			g.emit("MINCOUNT 0 " + mc)
 		}
-		g.sequential(n)
+		if tm := os.Getenv("VERIF_TIMER"); tm != "" {
+			g.emit("NEW 0 0 0")
+			for _, ms := range strings.Split(tm, ",") {
+				g.emit("TIMER " + ms)
+			}
+		}
 	case "win":
 		g.windows(n)
 	case "enum":
